@@ -1,5 +1,24 @@
-"""(stub)"""
+"""Contracts for fakesnow/variables.py (C15)."""
+from __future__ import annotations
+
+from pyvc.types import DictT, ListT, NoneType, Opt, TupleT
+from pyvc.world import ClassSchema, Contract
 
 
 def install(w):
-    pass
+    import fakesnow.variables as fv
+
+    Vr = fv.Variables
+    w.schemas[Vr] = ClassSchema(Vr, fields={"_variables": DictT(str, str)})
+    M = "fakesnow.variables.Variables."
+    w.add_contract(
+        Contract(
+            M + "__init__",
+            params={"self": Vr},
+            requires=[],
+            result=NoneType,
+            modifies=["self._variables"],
+            ensures={"C15.init.empty": "is_fresh(self._variables) and dict_len(self._variables) == 0 and forall(0, 1, lambda z: True)"},
+            props=["C15"],
+        )
+    )
